@@ -81,6 +81,14 @@ def instance_memos(mod, cls):
                     if y.key() == "None" and xa and xa[0] == "call" and call_name(xa) == "getattr" and len(xa[2]) == 3 and xa[2][0].key() == "self" \
                             and xa[2][2].key() == "None" and _str(xa[2][1]):
                         tested.add(_str(xa[2][1]))
+        # ... unless the cached value is also compared with a key (cached[0] == key): that is a keyed last-value memo (handled below)
+        for e in ev.events:
+            if e.kind != "test":
+                continue
+            for a in find_atoms(e.value, lambda a: a[0] in ("eq", "ne")):
+                for nm in list(tested):
+                    if f"getattr(self, '{nm}', None)" in a[1].key() or f"getattr(self, '{nm}', None)" in a[2].key():
+                        tested.discard(nm)
         # try: return self._x  except AttributeError: compute
         for r in ev.returns:
             if r.value is None:
